@@ -41,6 +41,10 @@ func c11Snapshot(r *core.Run, p *core.Program) {
 			}
 		}
 	}
+	c11WaitOnEveryReturn(r, p)
+	wgDiscipline(r, p, "R-C11-workers", "workers-counted-before-start", func(path string) bool {
+		return strings.HasSuffix(path, "lib/chain") || strings.HasSuffix(path, "lib/utxo") || strings.HasSuffix(path, "lib/btc") || strings.HasSuffix(path, "client/txpool")
+	})
 	la := an.NewLockAnalysis(p)
 	// writers of the set
 	writers := map[*ssa.Function]bool{}
@@ -748,4 +752,213 @@ func c11Base(v ssa.Value) ssa.Value {
 		}
 	}
 	return v
+}
+
+// wgDiscipline (shared by C05 and C11): a WaitGroup counts the goroutines a function waits for. The counter
+// must be raised by the spawner before the go statement; raised inside the new goroutine, Wait can see zero
+// and return before the goroutine has even started - its result (an error found by a checker, a hash, a
+// deletion) is then ignored.
+func wgDiscipline(r *core.Run, p *core.Program, rule, key string, inPkg func(path string) bool) {
+	n := 0
+	var bad []string
+	for _, f := range p.ModuleFuncs() {
+		pk := core.FuncPkg(f)
+		if pk == nil || !inPkg(pk.Path()) {
+			continue
+		}
+		for _, b := range f.Blocks {
+			for k, ins := range b.Instrs {
+				g, ok := ins.(*ssa.Go)
+				if !ok {
+					continue
+				}
+				var callee *ssa.Function
+				switch v := g.Call.Value.(type) {
+				case *ssa.MakeClosure:
+					callee, _ = v.Fn.(*ssa.Function)
+				case *ssa.Function:
+					callee = v
+				}
+				if callee == nil {
+					// a closure held in a local variable
+					if ld, ok := g.Call.Value.(*ssa.UnOp); ok {
+						if al, ok := ld.X.(*ssa.Alloc); ok {
+							for _, ref := range *al.Referrers() {
+								if st, ok := ref.(*ssa.Store); ok {
+									if mc, ok := st.Val.(*ssa.MakeClosure); ok {
+										callee, _ = mc.Fn.(*ssa.Function)
+									}
+								}
+							}
+						}
+					}
+				}
+				if callee == nil && g.Call.Value != nil {
+					if mc, ok := g.Call.Value.(*ssa.Phi); ok {
+						_ = mc
+					}
+				}
+				if callee == nil {
+					if cf := an.StaticCallee(g); cf != nil {
+						callee = cf
+					}
+				}
+				if callee == nil {
+					continue
+				}
+				done := len(an.CallsTo(callee, true, "(*sync.WaitGroup).Done")) > 0
+				if !done {
+					continue
+				}
+				n++
+				// the same WaitGroup raised inside the goroutine that signals it
+				dones := map[string]bool{}
+				for _, c := range an.CallsTo(callee, false, "(*sync.WaitGroup).Done") {
+					dones[an.Expr(c.Common().Args[0])] = true
+				}
+				self := false
+				for _, c := range an.CallsTo(callee, false, "(*sync.WaitGroup).Add") {
+					if dones[an.Expr(c.Common().Args[0])] {
+						self = true
+					}
+				}
+				if self {
+					bad = append(bad, fmt.Sprintf("the goroutine started at %s raises the WaitGroup counter itself", p.Pos(g.Pos())))
+					continue
+				}
+				// an Add in the spawner before the go statement (same block earlier, or a dominating block)
+				okAdd := false
+				for _, c := range an.CallsTo(f, false, "(*sync.WaitGroup).Add") {
+					ci := c.(ssa.Instruction)
+					if ci.Block() == b {
+						for _, x := range b.Instrs[:k] {
+							if x == ci {
+								okAdd = true
+							}
+						}
+					} else if ci.Block().Dominates(b) {
+						okAdd = true
+					}
+				}
+				if !okAdd {
+					bad = append(bad, fmt.Sprintf("the goroutine started at %s signals Done but the spawner does not raise the counter before starting it", p.Pos(g.Pos())))
+				}
+			}
+		}
+	}
+	sort.Strings(bad)
+	r.Check(len(bad) == 0 && n >= 1, rule, key, "-", fmt.Sprintf("%d goroutines that signal a WaitGroup, each counted by its spawner before it starts", n), strings.Join(bad, "; "))
+}
+
+// c11WaitOnEveryReturn: block connection starts script verifiers while it is still walking the transactions
+// and may return early on a failed check; a deferred function then waits for the verifiers - guarded by a
+// flag. The flag may only ever be set to true (once a verifier was started it stays set): a flag recomputed
+// per transaction can be false at an early return while verifiers of earlier transactions still run, and the
+// caller then clears the data they read.
+func c11WaitOnEveryReturn(r *core.Run, p *core.Program) {
+	const rule = "R-C11-workers"
+	var ct *ssa.Function
+	for _, f := range p.ModuleFuncs() {
+		if pk := core.FuncPkg(f); pk == nil || !strings.HasSuffix(pk.Path(), "lib/chain") || f.Parent() != nil {
+			continue
+		}
+		if len(an.CallsTo(f, false, "(*lib/utxo.UnspentDB).UnspentGet")) > 0 && len(an.CallsTo(f, true, "lib/script.VerifyTxScript")) > 0 {
+			ct = f
+		}
+	}
+	if ct == nil {
+		r.Fail(rule, "verifiers-joined-on-early-return", "-", "block-connection function not found")
+		return
+	}
+	// the deferred closure that waits, and the flag it tests
+	var flag *ssa.Alloc
+	for _, cf := range ct.AnonFuncs {
+		if len(an.CallsTo(cf, false, "(*sync.WaitGroup).Wait")) == 0 {
+			continue
+		}
+		for _, b := range cf.Blocks {
+			if iff, ok := b.Instrs[len(b.Instrs)-1].(*ssa.If); ok {
+				if ld, ok := iff.Cond.(*ssa.UnOp); ok && ld.Op == token.MUL {
+					if fv, ok := ld.X.(*ssa.FreeVar); ok {
+						for k, x := range cf.FreeVars {
+							if x == fv {
+								// the binding in the parent
+								an.Instrs(ct, func(i ssa.Instruction) {
+									if mc, ok := i.(*ssa.MakeClosure); ok && mc.Fn == ssa.Value(cf) && k < len(mc.Bindings) {
+										flag, _ = mc.Bindings[k].(*ssa.Alloc)
+									}
+								})
+							}
+						}
+					}
+				}
+			}
+		}
+	}
+	deferred := false
+	an.Instrs(ct, func(i ssa.Instruction) {
+		if d, ok := i.(*ssa.Defer); ok {
+			if mc, ok := d.Call.Value.(*ssa.MakeClosure); ok {
+				if cf, ok := mc.Fn.(*ssa.Function); ok && len(an.CallsTo(cf, false, "(*sync.WaitGroup).Wait")) > 0 {
+					deferred = true
+				}
+			}
+		}
+	})
+	if flag == nil {
+		// an unconditional deferred Wait is fine as well
+		r.Check(deferred, rule, "verifiers-joined-on-early-return", p.Pos(ct.Pos()), "a deferred function waits for the verifiers on every return", "no deferred wait for the script verifiers: an early return leaves them running while the caller clears their data")
+		return
+	}
+	var badStores []string
+	nTrue := 0
+	for _, ref := range *flag.Referrers() {
+		if st, ok := ref.(*ssa.Store); ok && st.Addr == ssa.Value(flag) {
+			switch an.Expr(st.Val) {
+			case "true":
+				nTrue++
+			case "false":
+				// allowed: the initial value, and a reset immediately followed by an explicit Wait
+				okReset := st.Block() == ct.Blocks[0]
+				after := false
+				for _, x := range st.Block().Instrs {
+					if x == ssa.Instruction(st) {
+						after = true
+						continue
+					}
+					if c, isC := x.(*ssa.Call); after && isC && an.CallName(c) == "(*sync.WaitGroup).Wait" {
+						okReset = true
+					}
+				}
+				if !okReset {
+					badStores = append(badStores, "reset to false at "+p.Pos(st.Pos()))
+				}
+			default:
+				badStores = append(badStores, "assigned "+an.Expr(st.Val)+" at "+p.Pos(st.Pos()))
+			}
+		}
+	}
+	// set in the same block as every verifier start
+	okSet := true
+	for _, b := range ct.Blocks {
+		for _, ins := range b.Instrs {
+			if g, ok := ins.(*ssa.Go); ok {
+				if mc, ok := g.Call.Value.(*ssa.MakeClosure); ok {
+					if cf, ok := mc.Fn.(*ssa.Function); ok && len(an.CallsTo(cf, false, "lib/script.VerifyTxScript")) > 0 {
+						set := false
+						for _, x := range b.Instrs {
+							if st, ok := x.(*ssa.Store); ok && st.Addr == ssa.Value(flag) && an.Expr(st.Val) == "true" {
+								set = true
+							}
+						}
+						if !set {
+							okSet = false
+						}
+					}
+				}
+			}
+		}
+	}
+	sort.Strings(badStores)
+	r.Check(deferred && nTrue >= 1 && okSet && len(badStores) == 0, rule, "verifiers-joined-on-early-return", p.Pos(ct.Pos()), "the wait flag is set with every verifier start and never cleared", fmt.Sprintf("the flag guarding the deferred wait is not sticky (%s; set with every start: %v)", strings.Join(badStores, "; "), okSet))
 }
